@@ -50,6 +50,8 @@ func (g *GTPv1U) DecodeFromBytes(data []byte, df gopacket.DecodeFeedback) error 
 	if dLen < hLen {
 		return fmt.Errorf("GTP packet too small: %d bytes", dLen)
 	}
+	// a reused layer must not keep the optional fields and extension headers of an earlier packet
+	g.SequenceNumber, g.NPDU, g.GTPExtensionHeaders = 0, 0, nil
 	g.Version = (data[0] >> 5) & 0x07
 	g.ProtocolType = (data[0] >> 4) & 0x01
 	g.Reserved = (data[0] >> 3) & 0x01
